@@ -178,6 +178,18 @@ impl ElementMap for TransformerContext {
     }
 
     fn get_element_bbox(&self, el: &SvgElement) -> Result<Option<BoundingBox>> {
+        self.clipped_element_bbox(el, &mut Vec::new())
+    }
+}
+
+impl TransformerContext {
+    /// Bounding box of an element, restricted by its `clip-path` (if any);
+    /// `seen` holds the clip paths being followed, since a clipPath may itself be clipped.
+    fn clipped_element_bbox(
+        &self,
+        el: &SvgElement,
+        seen: &mut Vec<ElRef>,
+    ) -> Result<Option<BoundingBox>> {
         let target_el = el.get_target_element(self)?;
         let mut el_bbox = target_el.bbox()?;
 
@@ -203,11 +215,17 @@ impl ElementMap for TransformerContext {
             let clip_id = extract_urlref(&clip_path).ok_or(SvgdxError::InvalidData(format!(
                 "Invalid clip-path attribute: {clip_path}"
             )))?;
+            if seen.contains(&clip_id) {
+                return Err(SvgdxError::CircularRefError(format!(
+                    "clip-path {clip_id} already seen"
+                )));
+            }
+            seen.push(clip_id.clone());
             let clip_el = self
                 .get_element(&clip_id)
                 .ok_or(SvgdxError::ReferenceError(clip_id))?;
             if let ("clipPath", Some(clip_bbox)) =
-                (clip_el.name.as_str(), self.get_element_bbox(clip_el)?)
+                (clip_el.name.as_str(), self.clipped_element_bbox(clip_el, seen)?)
             {
                 el_bbox = bbox.intersect(&clip_bbox);
             }
